@@ -6,7 +6,7 @@ from engine import site as engine_site
 CONFIGS = ['prod']
 EXPLANATION = (
     'The algebraic laws themselves are NOT decided (they need evaluation of merge over all reachable sets). Decided: '
-    'clauses L, B and M — M: every path through merge merges the peer\'s version stamps;  B: a timestamp written into a map slot with `insert` must have competed with what the slot held (re-insert of the looked-up value, max-join with it, or a guard against it); L — in OrSWotSet::merge and NodeVersions::merge, wherever two timestamps compete for one key / one '
+    'clauses L, B, D, M and S — S: the purge cut-off table has a single writer (the min-over-sources-minus-forgiveness computation), also on the merge path;  D: a timestamp removed from its map is re-inserted, joined, or dropped only where it is the smaller one;  M: every path through merge merges the peer\'s version stamps;  B: a timestamp written into a map slot with `insert` must have competed with what the slot held (re-insert of the looked-up value, max-join with it, or a guard against it); L — in OrSWotSet::merge and NodeVersions::merge, wherever two timestamps compete for one key / one '
     '(source, origin) stamp and one survives, the guard edge normalises to dropped <= survivor; joins use max, never min. '
     'A resolution that keeps the smaller timestamp makes a.merge(b) and b.merge(a) differ on that key, so L is necessary '
     'for commutativity.')
@@ -24,6 +24,8 @@ def check(ctx):
     ctx.floor('C03.L', 'survivor guards and joins in OrSWotSet::merge', n1, 5)
     nb = lww.check_blind_overwrites(ctx, facts, 'C03.B', [m])
     ctx.floor('C03.B', 'timestamp stores by insert in OrSWotSet::merge', nb, 4)
+    nd = lww.check_guarded_drops(ctx, facts, 'C03.D', [m])
+    ctx.floor('C03.D', 'timestamp removals in OrSWotSet::merge', nd, 3)
     # M: every path through merge also merges the version stamps, after the entry log was replayed
     vm = [b for b, t in m.calls() if cname(t) == 'datacake_crdt::orswot::NodeVersions::merge']
     rets = m.return_blocks()
@@ -32,5 +34,16 @@ def check(ctx):
            'every path through merge ends by merging the peer\'s version stamps' if good else
            'merge can return without merging the peer\'s version stamps (early return / fast path): purge cut-offs and refusals then differ between '
            'replicas that merged each other, and re-merging is not idempotent')
+    # S: merging version stamps derives the purge cut-off only through the one cut-off computation
+    import c08, gate
+    pp = gate.gate_predicates(facts, facts.body('datacake_crdt::orswot::OrSWotSet::purge_old_deletes'))
+    pred = sorted(pp)[0] if len(pp) == 1 else 'is_ts_before_last_observed_event'
+    writers = c08.cutoff_writers(facts, pred)
+    with_min = [b_ for b_ in writers if any(cname(t_) and re.search(r'Iterator::(min|max)$|cmp::(Ord::)?(min|max)$', cname(t_)) for _x, t_ in b_.calls())]
+    extra = [b_ for b_ in writers if b_ not in with_min[:1]]
+    ctx.ob('C03.S', 'cutoff-table|single-writer', bool(with_min) and not extra, engine_site(extra[0]) if extra else '',
+           'version-stamp merging updates the purge cut-off only through the cut-off computation' if with_min and not extra else
+           'the purge cut-off table is also written by %s: a replica that learns a stamp by merging gets a different cut-off than one that learns it '
+           'from an operation, so merge grouping / order changes which entries survive' % [b_.name.replace('datacake_crdt::orswot::', '') for b_ in extra])
     n2 = lww.check_bodies(ctx, facts, 'C03.L', [nm], 'versions-merge')
     ctx.floor('C03.L', 'survivor guards in NodeVersions::merge', n2, 1)
